@@ -350,14 +350,12 @@ theorem skipShebang_ok' {src : List Char} {L : Lexer} (h : Reach src L) (P : Pre
   unfold skipShebang
   split
   · rename_i t ht
-    split
-    · have h1 : Suffix (eatUntil '\n' t) L.input :=
-        (eatUntil_suffix _ _).trans ⟨['#', '!'], eatStr_true ht⟩
-      obtain ⟨a, ha⟩ := h1
-      obtain ⟨r, hr, spec⟩ := bumpTo_ok h ha
-      rw [hr]
-      exact ⟨r.2.2, rfl, spec.reach, by rw [spec.pos]; omega⟩
-    · exact ⟨L, rfl, h, Nat.le_refl _⟩
+    have h1 : Suffix (eatUntil '\n' t) L.input :=
+      (eatUntil_suffix _ _).trans ⟨['#', '!'], eatStr_true ht⟩
+    obtain ⟨a, ha⟩ := h1
+    obtain ⟨r, hr, spec⟩ := bumpTo_ok h ha
+    rw [hr]
+    exact ⟨r.2.2, rfl, spec.reach, by rw [spec.pos]; omega⟩
   · exact ⟨L, rfl, h, Nat.le_refl _⟩
 
 /-- the item `next_inner` returns, relative to the state before (`L`) and after (`L'`) -/
